@@ -49,6 +49,11 @@ def rand_attr_text(rng, hostile=0.5):
 
 
 def rand_date(rng):
+    r = rng.random()
+    if r < 0.06:
+        return dt.date(rng.choice([1, 9, 99, 999, 476]), rng.randrange(1, 13), rng.randrange(1, 29))   # years with < 4 digits
+    if r < 0.09:
+        return rng.choice([dt.date(1, 1, 1), dt.date(9999, 12, 31), dt.date(2000, 2, 29), dt.date(1000, 1, 1)])
     return dt.date(rng.randrange(1000, 9999), rng.randrange(1, 13), rng.randrange(1, 29))
 
 
@@ -84,7 +89,10 @@ def rand_value(rng, dtype, hostile=0.5):
     if dtype == "time":
         return rand_time(rng)
     if dtype == "datetime":
-        return dt.datetime.combine(rand_date(rng), rand_time(rng))  # may carry microseconds / tzinfo
+        d = rand_date(rng)
+        if d.year < 1000:
+            d = d.replace(year=d.year + 1000)     # the library refuses datetimes before the year 1000 (a refusal, not judged)
+        return dt.datetime.combine(d, rand_time(rng))  # may carry microseconds / tzinfo
     if dtype.endswith("-tuple"):
         n = int(dtype[:-6])
         pool = ["1", "2.5", "x", "a b", "ä", "-3", "0", "left", "1024", "768"]
